@@ -2,6 +2,7 @@ package props
 
 import (
 	"fmt"
+	"go/types"
 	"strings"
 
 	"golang.org/x/tools/go/ssa"
@@ -74,16 +75,27 @@ func (c *Ctx) sinsertContract() {
 		c.R.Unresolved("topics.snode.sinsert")
 		return
 	}
-	pos := c.P.Pos(fn.Pos())
 	// the search loop over sn.subs compares with equal(); on a hit stores sn.qos[i] = qos (same i) and returns
-	var loop *ir.Loop
-	for _, l := range ir.Loops(fn) {
-		for b := range l.Blocks {
-			for _, in := range b.Instrs {
-				if call, ok := in.(*ssa.Call); ok && ir.IsFunc(call.Common(), pkgTopics, "equal") {
-					loop = l
+	searchLoop := func(f *ssa.Function) *ir.Loop {
+		for _, l := range ir.Loops(f) {
+			for b := range l.Blocks {
+				for _, in := range b.Instrs {
+					if call, ok := in.(*ssa.Call); ok && ir.IsFunc(call.Common(), pkgTopics, "equal") {
+						return l
+					}
 				}
 			}
+		}
+		return nil
+	}
+	// the node-level block may have been moved into a method of the node (upsertSub): the contract is then its
+	fn = leafHost(fn, func(f *ssa.Function) bool { return searchLoop(f) != nil })
+	pos := c.P.Pos(fn.Pos())
+	loop := searchLoop(fn)
+	var qosParam ssa.Value
+	for _, p := range fn.Params[1:] {
+		if bt, ok := p.Type().Underlying().(*types.Basic); ok && bt.Kind() == types.Uint8 {
+			qosParam = p
 		}
 	}
 	if loop == nil {
@@ -162,7 +174,7 @@ func (c *Ctx) sinsertContract() {
 				continue
 			}
 			p := ir.PathOf(ia.X)
-			if len(p.Fields) == 1 && p.Fields[0] == "qos" && ir.SeeThrough(st.Val) == ssa.Value(fn.Params[2]) && sameIndexAsElement(ia.Index, loop) {
+			if len(p.Fields) == 1 && p.Fields[0] == "qos" && qosParam != nil && ir.SeeThrough(st.Val) == qosParam && sameIndexAsElement(ia.Index, loop) {
 				okStore = true
 			}
 		}
@@ -178,7 +190,27 @@ func (c *Ctx) sinsertContract() {
 			nQ++
 		}
 	}
+	// one helper call that extends both lists at once
+	pair := 0
+	for _, n := range g.All() {
+		if call, ok := n.Instr.(*ssa.Call); ok && pairAppendArgs(call) != nil {
+			sub, q := false, false
+			for _, a := range call.Common().Args {
+				if p := ir.PathOf(a); len(p.Fields) == 1 && p.Root == ssa.Value(fn.Params[0]) {
+					sub = sub || p.Fields[0] == "subs"
+					q = q || p.Fields[0] == "qos"
+				}
+			}
+			if sub && q {
+				pair++
+			}
+		}
+	}
 	both := nS == 1 && nQ == 1
+	if nS == 0 && nQ == 0 && pair == 1 {
+		c.R.Ok(ruleT5, "sinsert:parallel-lists-appended-together", pos, "subs and qos are extended by one helper call")
+		return
+	}
 	if both {
 		var a, b paths.Node
 		for _, n := range g.All() {
@@ -201,6 +233,18 @@ func (c *Ctx) sremoveContract() {
 		c.R.Unresolved("topics.snode.sremove")
 		return
 	}
+	fn = leafHost(fn, func(f *ssa.Function) bool {
+		for _, b := range f.Blocks {
+			for _, in := range b.Instrs {
+				if st, ok := in.(*ssa.Store); ok {
+					if p := ir.PathOf(st.Addr); len(p.Fields) == 1 && (p.Fields[0] == "subs" || p.Fields[0] == "qos") {
+						return true
+					}
+				}
+			}
+		}
+		return false
+	})
 	pos := c.P.Pos(fn.Pos())
 	type rem struct {
 		field string
@@ -589,4 +633,27 @@ func (c *Ctx) isLevelSplitter(f *ssa.Function) bool {
 		ok = true
 	}
 	return ok
+}
+
+// leafHost: fn itself when it has the wanted shape, else the one method of the same receiver type it calls (not
+// itself) that has it - the node-level block of a trie walk moved into a helper.
+func leafHost(fn *ssa.Function, has func(*ssa.Function) bool) *ssa.Function {
+	if has(fn) {
+		return fn
+	}
+	var found *ssa.Function
+	for _, call := range ir.Calls(fn) {
+		h := call.Common().StaticCallee()
+		if h == nil || h == fn || h.Blocks == nil || recvNamed(h) != recvNamed(fn) || !has(h) {
+			continue
+		}
+		if found != nil && found != h {
+			return fn
+		}
+		found = h
+	}
+	if found != nil {
+		return found
+	}
+	return fn
 }
